@@ -78,6 +78,9 @@ pub struct Cfg {
     pub churn: Option<(u32, u16, u8)>,
     /// one `crowd` step (at step index, n threads alive at once, first mode)
     pub crowd: Option<(u32, u16, u8)>,
+    /// `burst` steps: chance (per cent) that an operation step becomes a
+    /// burst, and the repetition count
+    pub burst: Option<(u32, u32)>,
     /// chance that an operation is a verbatim repetition of an earlier one
     /// of the same run (same operands, usually another thread / mode)
     pub repeat_pct: u32,
@@ -104,7 +107,7 @@ impl Cfg {
             "threads<={} steps={} w(set,read,op,spawn,exit,die,sweep)={:?} \
              classes(witness,wide,exact,panicking)={:?} faults[panic={} die={} \
              exit={} preempt={} sinkerr={} dtor={} reent={} yield={}] personality={} shape={} \
-             builder%={} ref={} churn={:?} crowd={:?} repeat%={} kinds={}",
+             builder%={} ref={} churn={:?} crowd={:?} burst={:?} repeat%={} kinds={}",
             self.max_threads,
             self.n_steps,
             self.w,
@@ -123,6 +126,7 @@ impl Cfg {
             if self.ref_per_event { "per-event" } else { "shared" },
             self.churn,
             self.crowd,
+            self.burst,
             self.repeat_pct,
             kinds.join(",")
         )
@@ -221,12 +225,30 @@ pub fn gen_cfg(rng: &mut Rng, tier_thorough: bool) -> Cfg {
         distinct_mode_pct: rng.range(40, 95) as u32,
         pct_depth: rng.range(1, 3) as u32,
         churn: if rng.below(40) == 0 {
-            let n = if tier_thorough && rng.pct(25) { rng.range(260, 1100) } else { rng.range(65, 260) };
+            let n = if tier_thorough && rng.pct(5) {
+                rng.range(4100, 9000) // past 2^12 thread creations
+            } else if rng.pct(if tier_thorough { 25 } else { 8 }) {
+                rng.range(260, 1100)
+            } else {
+                rng.range(65, 260)
+            };
             Some((rng.below(n_steps as u64) as u32, n as u16, rng.below(8) as u8))
         } else {
             None
         },
         repeat_pct: [0u32, 10, 25, 50][rng.usize_below(4)],
+        burst: if rng.below(40) == 0 {
+            let k = match rng.below(10) {
+                0..=5 => rng.range(300, 3000),
+                6..=8 => rng.range(66_000, 70_000), // past 2^16
+                _ => {
+                    if tier_thorough { rng.range(140_000, 300_000) } else { rng.range(3000, 20_000) }
+                }
+            };
+            Some((rng.range(10, 40) as u32, k as u32))
+        } else {
+            None
+        },
         crowd: if rng.below(50) == 0 {
             let n = match rng.below(4) {
                 0 => rng.range(9, 20),
@@ -994,6 +1016,12 @@ pub fn gen_plan(seed: u64, idx: u64, tier_thorough: bool) -> Generated {
                     }
                     op
                 };
+                if let Some((pct, k)) = cfg.burst {
+                    if !Op::is_control_kind(op.kind()) && rng.pct(pct) {
+                        steps.push(Step::new(tid, Action::Burst { op, k }));
+                        continue;
+                    }
+                }
                 let (st, parked) = op_step(&mut rng, &cfg, tid, op, false);
                 live[slot].parked = parked;
                 steps.push(st);
